@@ -239,8 +239,9 @@ Statement: for an `n × n` integer matrix (`n > 0`), whenever the determinant ro
   basis rows);
 * a row rejected: it is a combination of the earlier rows, the determinant is `0`.
 No hypothesis on `inv_mod64` and no primality of `p` is needed: the `assert_eq!(vp[i], self.r)` after
-the division certifies the modular inverse. Missing: totality (for a prime `p` no assertion fails)
-and the refinement `Ech → EchP`. -/
+the division certifies the modular inverse. Totality for a prime `p < 2^63` and the full statement are
+`echelon_total` / `echelon_det` (Ymq/Props/C19Dense.lean); still missing: the refinement `Ech → EchP`
+(first steps: `mg_redc_wide`, `echelon_submul_montgomery_partial`). -/
 theorem echelon_det_partial (inv : Inv) (p n : Nat) (hn : 0 < n) (mat : List (List Int))
     (hlen : mat.length = n) (hrows : ∀ r ∈ mat, r.length = n) (d : Nat)
     (h : detModPlain inv p { p := p, indices := [], basis := [], factors := [] } mat = some d) :
